@@ -1,3 +1,5 @@
+//go:build verif && (all || c29)
+
 package main
 
 import (
